@@ -6,7 +6,7 @@ GEN = []
 THEOREMS = ["C27_emit_partial", "C27_emit_decode_partial", "C27_length_partial", "C27_quote_unquote_partial",
             "C27_quote_unquote_units_partial", "C27_unquote_injective_partial", "C27_sq_plain_partial",
             "C27_plain_store_partial", "C27_plain_emit_partial", "C27_plain_quote_unquote_partial", "C27_decode_plain",
-            "C27_refuted_length", "C27_refuted_quote_unquote_newline", "C27_refuted_private_use",
+            "C27_refuted_length", "C27_refuted_quote_unquote_newline", "C27_refuted_private_use_tab",
             "C27_refuted_invalid_code_point", "C27_refuted_statement"]
 COQ_HEADER = ("From Coq Require Import String List NArith ZArith.\nFrom RV Require Import Run.C27.\n"
               "Import ListNotations.\nLocal Open Scope list_scope.")
@@ -71,7 +71,7 @@ def rand_body(rng, single=False):
     return s
 
 
-CORPUS = ["\\10x", "\\e000 1", "\ue0001", "a\\ ", "a\\ x", "\\d800", "\\110000", "\\a", "a\\\\b", "a\\\"b", "it's", "\\22 ", "\\41 b",
+CORPUS = ["\ue000\t", "\ue000 x", "\ue000a", "\\10x", "\\e000 1", "\ue0001", "a\\ ", "a\\ x", "\\d800", "\\110000", "\\a", "a\\\\b", "a\\\"b", "it's", "\\22 ", "\\41 b",
           "\\a 1", "\\a\tx", "\\0", "\\-\\ \\x", "", "plain text", "\\78 y", "\\5c 41 ", "\\1f600 ", "é中\U0001F600", "\\20", "\\20 x", " "]
 
 
@@ -188,6 +188,6 @@ LEVEL_TEXT = ("proof (partial): the double- and single-quoted literal readers of
               "five refuted clauses carry machine-checked witnesses; the model is tied to rsass by code-point-exact comparison "
               "of the printed token, str-length, quote(unquote()) and unquote() on generated literals")
 LEVEL_NOTE = ("the general statement is false in several ways (length counts stored escapes; quote does not re-escape line breaks "
-              "[the base-ten unquote F26b was fixed by cf6ac61]; private-use characters are written as unterminated hex escapes [the escaped-space part of F33 was fixed by 6aead77]; "
+              "[the base-ten unquote F26b was fixed by cf6ac61]; a private-use character before a tab is written as an unterminated hex escape [the escaped-space and hex-digit/space parts of F33 were fixed by 6aead77 and 71d4ea9]; "
               "surrogate/out-of-range escapes are read as text): known findings")
 TECHNIQUE = "Coq proof on the escape-free class + refutation witnesses + differential correspondence with a CSS-token decoder in Coq"
